@@ -236,5 +236,13 @@ def run(ctx: Ctx) -> None:
     rule_typestate(ctx)
     rule_repay(ctx)
     rule_auto_repay(ctx)
+    # 'when an auto-repay order closes ...': every way an order can close goes through _order_closed, where the repayment lives
+    # (shared with C06.2)
+    from . import c06
+    ctx.rule_map = {"C06.2": "C11.4"}
+    try:
+        c06.rule_release(ctx)
+    finally:
+        ctx.rule_map = {}
     rule_interest(ctx)
     ctx.assume("interest percentage, period and minimum are non-negative (unvalidated configuration)")
